@@ -88,6 +88,8 @@ pub mod protocol_set {
         Established,
         /// Connection closed.
         Closed,
+        /// An outbound substream failed to open (substream id).
+        OpenFailure(usize),
         /// Anything else.
         Other,
     }
@@ -101,6 +103,14 @@ pub mod protocol_set {
             self.0.recv().await.map(|event| match event {
                 InnerTransportEvent::ConnectionEstablished { .. } => Seen::Established,
                 InnerTransportEvent::ConnectionClosed { .. } => Seen::Closed,
+                InnerTransportEvent::SubstreamOpenFailure { substream, .. } => Seen::OpenFailure(
+                    format!("{substream:?}")
+                        .chars()
+                        .filter(char::is_ascii_digit)
+                        .collect::<String>()
+                        .parse()
+                        .unwrap_or(usize::MAX),
+                ),
                 _ => Seen::Other,
             })
         }
@@ -176,6 +186,21 @@ pub mod protocol_set {
         /// `ProtocolSet::report_connection_closed`
         pub async fn report_connection_closed(&mut self) -> crate::Result<()> {
             self.set.report_connection_closed(self.peer, self.connection).await
+        }
+
+        /// `ProtocolSet::report_substream_open_failure` for protocol number `index`.
+        pub async fn report_substream_open_failure(
+            &mut self,
+            index: usize,
+            substream: usize,
+        ) -> crate::Result<()> {
+            self.set
+                .report_substream_open_failure(
+                    ProtocolName::from(format!("/verif/{index}")),
+                    crate::types::SubstreamId::from(substream),
+                    crate::error::SubstreamError::ConnectionClosed,
+                )
+                .await
         }
     }
 }
